@@ -83,6 +83,33 @@ end
 
 def Mod.st (m : Mod) : St := m.info.st
 
+/-- the modules whose `onInit` (resp. `onStart`) ran, successful or not, in trace order -/
+def initIds (tr : List Ev) : List Nat := tr.filterMap fun | .init n _ => some n | _ => none
+def startIds (tr : List Ev) : List Nat := tr.filterMap fun | .start n _ => some n | _ => none
+
+/-- projection of a trace onto the modules selected by `p` -/
+def proj (p : Nat → Bool) (tr : List Ev) : List Ev := tr.filter fun e => p e.id
+
+/-- return values of the root calls of a sequence, in order -/
+def rets (rb : Bool) (t : Mod) : List Call → List Bool
+  | [] => []
+  | c :: cs => (call rb t c).2.1 :: rets rb (call rb t c).1 cs
+
+mutual
+/-- `t.simP p t'`: the two trees are equal except that an OPTIONAL child subtree may have been
+replaced by any other subtree (different shape, flags, states), provided `p` selects no module of
+the replaced or the replacing subtree (`p` = "the other modules") -/
+def Mod.simP (p : Nat → Bool) : Mod → Mod → Prop
+  | .node i ks, .node i' ks' => i = i' ∧ ks.simP p ks'
+def Kids.simP (p : Nat → Bool) : Kids → Kids → Prop
+  | .nil, .nil => True
+  | .nil, .cons _ _ _ => False
+  | .cons _ _ _, .nil => False
+  | .cons m r rest, .cons m' r' rest' =>
+      r = r' ∧ (m.simP p m' ∨ (r = false ∧ (∀ x ∈ m.ids, p x = false) ∧ (∀ x ∈ m'.ids, p x = false))) ∧
+      rest.simP p rest'
+end
+
 /-- number of `init n true` / `cleanup n` / `start n true` / `stop n` hooks in a trace -/
 def cnt (e : Ev) (tr : List Ev) : Nat := tr.count e
 
